@@ -141,6 +141,16 @@ FENCE_PATTERN = re.compile(r"^( *)((`{3,})([^\n`]*)?)$")
 _INLINE_FENCE_PATTERN = re.compile(r"^.*::(`{3,})")
 
 
+# Escape sequences recognised inside quoted strings; any other backslash pair is kept verbatim.
+_ESCAPE_SEQUENCE_PATTERN = re.compile(r"\\(.)")
+_ESCAPE_SEQUENCES = {'"': '"', "\\": "\\", "n": "\n", "t": "\t"}
+
+
+def _unescape_sequence(match: "re.Match[str]") -> str:
+    """Replace one backslash escape by the character it denotes."""
+    return _ESCAPE_SEQUENCES.get(match.group(1), match.group(0))
+
+
 def _evaluate_fence_line(
     backtick_seq: str,
     open_fence_marker: str,
@@ -889,11 +899,10 @@ def tokenize(content: str, lenient: bool = False) -> tuple[list[Token], list[Any
                     else:
                         # Single-quoted string: remove " from both ends
                         value = matched_text[1:-1]
-                    # Process escape sequences
-                    value = value.replace(r"\"", '"')
-                    value = value.replace(r"\\", "\\")
-                    value = value.replace(r"\n", "\n")
-                    value = value.replace(r"\t", "\t")
+                    # Process escape sequences in a single left-to-right pass so that an
+                    # escaped backslash is never re-read as the start of another escape
+                    # (a doubled backslash followed by n is backslash + n, not a newline).
+                    value = _ESCAPE_SEQUENCE_PATTERN.sub(_unescape_sequence, value)
                 elif token_type == TokenType.NUMBER:
                     # Convert to int or float, but preserve raw lexeme for fidelity (GH#66)
                     if "." in matched_text or "e" in matched_text.lower():
